@@ -174,95 +174,208 @@ theorem shortest_sound (o s k : Nat) (c : Int) (h : isShortest o s k c = true) :
         have hf := upperOK_false_mono (decDen_pos _) (decDen_pos _) this hB
         rw [hf] at hu; cases hu
 
-/-- **"closest among the shortest", same-exponent part** (Number::toString note 2).  An accepted digit string
-`s` is at least as close to the double as EVERY other decimal `s' × 10^c` with the same exponent of the last digit
-that also parses back to the double (only those compete).
-`_partial`: k-digit competitors of the decade below (ten times finer grid; they exist only when `s = 10^(k−1)`) are
-handled by the last executable test of `isClosest`, which this theorem does not cover. -/
-theorem closest_sound_partial (o s k : Nat) (c : Int) (h : isClosest o s k c = true)
-    (hr : roundsTo s c o = true) :
-    (∀ s' : Nat, s < s' → roundsTo s' c o = true → distTo o s c ≤ distTo o s' c) ∧
-    (10 ^ (k - 1) < s → ∀ s' : Nat, s' < s → roundsTo s' c o = true → distTo o s c ≤ distTo o s' c) := by
-  simp only [isClosest, Bool.and_eq_true, Bool.or_eq_true, Bool.not_eq_true', decide_eq_true_eq] at h
-  obtain ⟨hup, hdn⟩ := h
-  have e : ∀ t : Nat, decNum t c * scale = t * (10 ^ c.toNat * scale) := fun t => by
-    unfold decNum; exact Nat.mul_assoc _ _ _
-  have hD : 0 < 10 ^ c.toNat * scale := Nat.mul_pos (Nat.pow_pos (by decide)) scale_pos
+/-- **"closest among the shortest", all competitors** (Number::toString note 2).  Let `(s, k, c)` be accepted for the
+double with ordinal `o`.  (1) Every k-digit decimal `s' × 10^(c+j)`, `j ≥ 0`, that parses back is the same-grid value
+`(s'·10^j) × 10^c`, and `s` is at least as close.  (2) Every decimal `s' × 10^(c−j)`, `j ≥ 1`, with at most `k` digits
+that parses back: on the grid of exponent `c − j` the accepted value is `(s·10^j)`, and it is at least as close.
+Every integer exponent is `c + j` or `c − j`, so all k-digit competitors are covered. -/
+theorem closest_sound (o s k : Nat) (c : Int) (hs : isShortest o s k c = true) (h : isClosest o s k c = true) :
+    (∀ s' j : Nat, 10 ^ (k - 1) ≤ s' → roundsTo s' (c + j) o = true →
+        distTo o s c ≤ distTo o (s' * 10 ^ j) c) ∧
+    (∀ s' j : Nat, 1 ≤ j → s' < 10 ^ k → roundsTo s' (c - j) o = true →
+        distTo o (s * 10 ^ j) (c - j) ≤ distTo o s' (c - j)) := by
+  obtain ⟨hr, hlo, hhi, _⟩ := shortest_sound o s k c hs
+  have hk1 : 1 ≤ k := by
+    simp only [isShortest, Bool.and_eq_true, decide_eq_true_eq] at hs; exact hs.1.1.1.1
+  have hcp := closest_same_grid o s k c h hr
   constructor
-  · intro s' hlt hr'
-    have hmid : roundsTo (s + 1) c o = true := roundsTo_between (Nat.le_succ s) hlt hr hr'
-    rcases hup with hf | hd
-    · rw [hmid] at hf; cases hf
-    · unfold distTo at hd ⊢
-      rw [e, e] at hd
-      rw [e, e]
-      have h1 : (s + 1) * (10 ^ c.toNat * scale) ≤ s' * (10 ^ c.toNat * scale) := Nat.mul_le_mul_right _ hlt
-      rw [Nat.add_mul, Nat.one_mul] at h1 hd
-      generalize s * (10 ^ c.toNat * scale) = p at hd h1 ⊢
-      generalize s' * (10 ^ c.toNat * scale) = p' at h1 ⊢
-      generalize 10 ^ c.toNat * scale = D at hd h1 hD
-      generalize magOrd o * decDen c = q at hd ⊢
-      unfold absDiff at *
-      omega
-  · intro hbig s' hlt hr'
-    rw [if_pos hbig] at hdn
-    simp only [Bool.or_eq_true, Bool.not_eq_true', decide_eq_true_eq] at hdn
-    have hmid : roundsTo (s - 1) c o = true := roundsTo_between (by omega) (Nat.sub_le s 1) hr' hr
-    rcases hdn with hf | hd
-    · rw [hmid] at hf; cases hf
-    · unfold distTo at hd ⊢
-      rw [e, e] at hd
-      rw [e, e]
-      have hs1 : s = (s - 1) + 1 := by omega
-      have h1 : s' * (10 ^ c.toNat * scale) ≤ (s - 1) * (10 ^ c.toNat * scale) := Nat.mul_le_mul_right _ (by omega)
-      have h2 : s * (10 ^ c.toNat * scale) = (s - 1) * (10 ^ c.toNat * scale) + (10 ^ c.toNat * scale) := by
-        conv => lhs; rw [hs1]
-        rw [Nat.add_mul, Nat.one_mul]
-      generalize s * (10 ^ c.toNat * scale) = p at hd h2 ⊢
-      generalize (s - 1) * (10 ^ c.toNat * scale) = p1 at hd h1 h2
-      generalize s' * (10 ^ c.toNat * scale) = p' at h1 ⊢
-      generalize 10 ^ c.toNat * scale = D at h2 hD
-      generalize magOrd o * decDen c = q at hd ⊢
-      unfold absDiff at *
-      omega
+  · intro s' j hs' hr'
+    have hr2 : roundsTo (s' * 10 ^ j) c o = true := by
+      have := roundsTo_shift s' (c + j) j o
+      have e : c + (j : Int) - (j : Int) = c := by omega
+      rw [e] at this; rw [this]; exact hr'
+    have hge : s' ≤ s' * 10 ^ j := Nat.le_mul_of_pos_right _ (Nat.pow_pos (by decide))
+    rcases Nat.lt_trichotomy s (s' * 10 ^ j) with hlt | heq | hgt
+    · exact hcp.1 _ hlt hr2
+    · rw [← heq]; exact Nat.le_refl _
+    · exact hcp.2 (by omega) _ hgt hr2
+  · intro s' j hj hs' hr'
+    have hrJ : roundsTo (s * 10 ^ j) (c - j) o = true := by rw [roundsTo_shift]; exact hr
+    have hJ : 10 ^ j = 10 * 10 ^ (j - 1) := by
+      have : j = (j - 1) + 1 := by omega
+      conv => lhs; rw [this]
+      rw [Nat.pow_succ, Nat.mul_comm]
+    have hJ' : 0 < 10 ^ (j - 1) := Nat.pow_pos (by decide)
+    have hK : 10 ^ k = 10 ^ (k - 1) * 10 := by
+      have : k = (k - 1) + 1 := by omega
+      conv => lhs; rw [this]
+      rw [Nat.pow_succ]
+    simp only [isClosest, Bool.and_eq_true] at h
+    obtain ⟨_, hdn⟩ := h
+    by_cases hbig : 10 ^ (k - 1) < s
+    · -- neighbour below on the same grid: (s − 1) × 10^c
+      rw [if_pos hbig] at hdn
+      simp only [Bool.or_eq_true, Bool.not_eq_true', decide_eq_true_eq] at hdn
+      have hle : s' ≤ (s - 1) * 10 ^ j := by
+        have : 10 ^ (k - 1) * 10 ≤ (s - 1) * 10 ^ j := by
+          rw [hJ]
+          calc 10 ^ (k - 1) * 10 ≤ (s - 1) * 10 := Nat.mul_le_mul_right _ (by omega)
+            _ ≤ (s - 1) * (10 * 10 ^ (j - 1)) := by
+              rw [← Nat.mul_assoc]; exact Nat.le_mul_of_pos_right _ hJ'
+        omega
+      have hlt : (s - 1) * 10 ^ j < s * 10 ^ j :=
+        Nat.mul_lt_mul_of_pos_right (by omega) (Nat.pow_pos (by decide))
+      have hmid : roundsTo ((s - 1) * 10 ^ j) (c - j) o = true :=
+        roundsTo_between hle (Nat.le_of_lt hlt) hr' hrJ
+      rw [roundsTo_shift] at hmid
+      rcases hdn with hf | hd
+      · rw [hmid] at hf; cases hf
+      · exact dist_below hle hlt (distTo_le_shift j hd)
+    · -- s = 10^(k−1): the largest k-digit decimal of the decade below, (10^k − 1) × 10^(c−1)
+      rw [if_neg hbig] at hdn
+      simp only [Bool.or_eq_true, Bool.not_eq_true', decide_eq_true_eq] at hdn
+      have hs0 : s = 10 ^ (k - 1) := by omega
+      have ec : c - 1 - ((j - 1 : Nat) : Int) = c - j := by omega
+      have hle : s' ≤ (10 ^ k - 1) * 10 ^ (j - 1) := by
+        have : 10 ^ k - 1 ≤ (10 ^ k - 1) * 10 ^ (j - 1) := Nat.le_mul_of_pos_right _ hJ'
+        omega
+      have hlt : (10 ^ k - 1) * 10 ^ (j - 1) < s * 10 ^ j := by
+        rw [hJ, hs0, ← Nat.mul_assoc, ← hK]
+        apply Nat.mul_lt_mul_of_pos_right _ hJ'
+        have : 0 < 10 ^ k := Nat.pow_pos (by decide)
+        omega
+      have hmid : roundsTo ((10 ^ k - 1) * 10 ^ (j - 1)) (c - j) o = true :=
+        roundsTo_between hle (Nat.le_of_lt hlt) hr' hrJ
+      have hsh := roundsTo_shift (10 ^ k - 1) (c - 1) (j - 1) o
+      rw [ec] at hsh
+      rw [hsh] at hmid
+      rcases hdn with hf | hd
+      · rw [hmid] at hf; cases hf
+      · have hd2 := distTo_le_shift (j - 1) hd
+        rw [ec] at hd2
+        have e10 : 10 * s * 10 ^ (j - 1) = s * 10 ^ j := by rw [hJ]; ac_rfl
+        rw [e10] at hd2
+        exact dist_below hle hlt hd2
 
-/-- **toExponential / toPrecision digit selection, same-exponent part** (toExponential step 10.b, toPrecision
-step 10.a).  If the checker accepts `n` (with `fd+1` digits) and exponent `c = e − fd`, then `n` has exactly `fd+1`
-digits, `n × 10^c − x` is as close to zero as for any other integer `n'` at the same exponent, and of two equally
-close ones `n` is the larger.  `_partial`: candidates `(n', e')` with another exponent `e'` are excluded by the
-executable boundary test at the end of `isExp` (the largest candidate of the decade below must not be closer);
-that part is not covered by this theorem. -/
-theorem exp_sound_partial (X fd n : Nat) (c : Int) (h : isExp X fd n c = true) :
+/-- **toExponential / toPrecision digit selection, all competitors.**  Write `W = 10^c⁺·scale` (one unit of the last
+digit, scaled) and `q = X·decDen c` (the double, scaled): the accepted candidate is `n·W`.
+(1) Every candidate whose last-digit exponent is `c + j` (`j ≥ 0`, any `n'`) is the same-grid value `n'·10^j·W`.
+(2) Every candidate with `fd+1` digits whose last-digit exponent is `c − j` (`j ≥ 1`) is `n'·W / 10^j`; both sides are
+multiplied by `10^j`.  In both cases the accepted candidate is at least as close to the double, and on a tie it is the
+larger of the two (ECMA-262 toExponential step 10.b / toPrecision step 10.a: "pick the e and n for which n × 10^(e−f)
+is larger").  Every integer exponent is `c + j` or `c − j`, so this covers all pairs (n', e'). -/
+theorem exp_sound (X fd n : Nat) (c : Int) (h : isExp X fd n c = true) :
     10 ^ fd ≤ n ∧ n < 10 ^ (fd + 1) ∧
-    ∀ n' : Nat,
-      absDiff (n * (10 ^ c.toNat * scale)) (X * decDen c) ≤ absDiff (n' * (10 ^ c.toNat * scale)) (X * decDen c) ∧
-      (absDiff (n * (10 ^ c.toNat * scale)) (X * decDen c) = absDiff (n' * (10 ^ c.toNat * scale)) (X * decDen c)
-        → n' ≤ n) := by
+    (∀ n' j : Nat,
+      absDiff (n * (10 ^ c.toNat * scale)) (X * decDen c)
+        ≤ absDiff (n' * 10 ^ j * (10 ^ c.toNat * scale)) (X * decDen c) ∧
+      (absDiff (n * (10 ^ c.toNat * scale)) (X * decDen c)
+        = absDiff (n' * 10 ^ j * (10 ^ c.toNat * scale)) (X * decDen c) → n' * 10 ^ j ≤ n)) ∧
+    (∀ n' j : Nat, 1 ≤ j → 10 ^ fd ≤ n' → n' < 10 ^ (fd + 1) →
+      absDiff (n * (10 ^ c.toNat * scale) * 10 ^ j) (X * decDen c * 10 ^ j)
+        ≤ absDiff (n' * (10 ^ c.toNat * scale)) (X * decDen c * 10 ^ j) ∧
+      (absDiff (n * (10 ^ c.toNat * scale) * 10 ^ j) (X * decDen c * 10 ^ j)
+        = absDiff (n' * (10 ^ c.toNat * scale)) (X * decDen c * 10 ^ j) →
+          n' * (10 ^ c.toNat * scale) ≤ n * (10 ^ c.toNat * scale) * 10 ^ j)) := by
+  have hp := exp_same_grid X fd n c h
+  refine ⟨hp.1, hp.2.1, fun n' j => hp.2.2 (n' * 10 ^ j), ?_⟩
+  intro n' j hj hlo' hhi'
   unfold isExp at h
-  simp only [Bool.and_eq_true, decide_eq_true_eq] at h
-  obtain ⟨⟨⟨hlo, hhi⟩, hmain⟩, _⟩ := h
-  refine ⟨hlo, hhi, ?_⟩
-  intro n'
+  simp only [Bool.and_eq_true, decide_eq_true_eq, Bool.or_eq_true] at h
+  obtain ⟨⟨⟨hlo, hhi⟩, hmain⟩, hbd⟩ := h
   have e : ∀ t : Nat, t * 10 ^ c.toNat * scale = t * (10 ^ c.toNat * scale) := fun t => Nat.mul_assoc _ _ _
-  rw [e] at hmain
-  have hD : 0 < 10 ^ c.toNat * scale := Nat.mul_pos (Nat.pow_pos (by decide)) scale_pos
-  generalize 10 ^ c.toNat * scale = D at hmain hD ⊢
-  generalize X * decDen c = q at hmain ⊢
-  have hcases : n' < n ∨ n' = n ∨ n < n' := by omega
-  rcases hcases with hlt | heq | hgt
-  · have h1 : (n' + 1) * D ≤ n * D := Nat.mul_le_mul_right _ hlt
-    rw [Nat.add_mul, Nat.one_mul] at h1
-    generalize n * D = p at hmain h1 ⊢
-    generalize n' * D = p' at h1 ⊢
-    unfold absDiff
-    split at hmain <;> simp only [decide_eq_true_eq] at hmain <;> omega
-  · subst heq; exact ⟨Nat.le_refl _, fun _ => Nat.le_refl _⟩
-  · have h1 : (n + 1) * D ≤ n' * D := Nat.mul_le_mul_right _ hgt
-    rw [Nat.add_mul, Nat.one_mul] at h1
-    generalize n * D = p at hmain h1 ⊢
-    generalize n' * D = p' at h1 ⊢
-    unfold absDiff
-    split at hmain <;> simp only [decide_eq_true_eq] at hmain <;> omega
+  simp only [e] at hmain hbd
+  have hW : 0 < 10 ^ c.toNat * scale := Nat.mul_pos (Nat.pow_pos (by decide)) scale_pos
+  generalize 10 ^ c.toNat * scale = W at hmain hbd hW ⊢
+  generalize X * decDen c = q at hmain hbd ⊢
+  have hL : 10 ^ (fd + 1) = 10 * 10 ^ fd := by rw [Nat.pow_succ, Nat.mul_comm]
+  rw [hL] at hhi hhi' hbd
+  generalize 10 ^ fd = L at hlo hhi hlo' hhi' hbd
+  -- J = 10^j = 10 * J'
+  have hJ : 10 ^ j = 10 * 10 ^ (j - 1) := by
+    have : j = (j - 1) + 1 := by omega
+    conv => lhs; rw [this]
+    rw [Nat.pow_succ, Nat.mul_comm]
+  have hJ' : 0 < 10 ^ (j - 1) := Nat.pow_pos (by decide)
+  rw [hJ]
+  generalize 10 ^ (j - 1) = J' at hJ' ⊢
+  have hJpos : 0 < 10 * J' := by omega
+  obtain ⟨hm1, hm2⟩ := scale_cond hJpos hmain
+  -- atoms
+  have a1 : n' * W + W ≤ 10 * (L * W) := by
+    have : (n' + 1) * W ≤ 10 * L * W := Nat.mul_le_mul_right _ (by omega)
+    rw [Nat.add_mul, Nat.one_mul, Nat.mul_assoc] at this; exact this
+  have a2 : L * W ≤ L * W * J' := Nat.le_mul_of_pos_right _ hJ'
+  have a3 : L * W * (10 * J') ≤ n * W * (10 * J') :=
+    Nat.mul_le_mul_right _ (Nat.mul_le_mul_right _ hlo)
+  have a3' : L * W * (10 * J') = 10 * (L * W * J') := by
+    rw [Nat.mul_comm 10 J', ← Nat.mul_assoc, Nat.mul_comm]
+  have a4 : n ≠ L → L * W * (10 * J') + W * (10 * J') ≤ n * W * (10 * J') := by
+    intro hne
+    have : (L + 1) * W * (10 * J') ≤ n * W * (10 * J') :=
+      Nat.mul_le_mul_right _ (Nat.mul_le_mul_right _ (by omega))
+    rw [Nat.add_mul, Nat.add_mul, Nat.one_mul] at this; exact this
+  have a5 : (10 * L - 1) * W ≤ (10 * L - 1) * W * J' := Nat.le_mul_of_pos_right _ hJ'
+  have a6 : n' * W ≤ (10 * L - 1) * W := Nat.mul_le_mul_right _ (by omega)
+  -- boundary condition scaled by J'
+  have hbd' : n ≠ L ∨ n * W * (10 * J') ≤ q * (10 * J') ∨
+      n * W * (10 * J') + (10 * L - 1) * W * J' ≤ 2 * (q * (10 * J')) := by
+    rcases hbd with (h1 | h2) | h3
+    · left; exact h1
+    · right; left; exact Nat.mul_le_mul_right _ h2
+    · right; right
+      have := Nat.mul_le_mul_right J' h3
+      have e1 : (10 * (n * W) + (10 * L - 1) * W) * J' = n * W * (10 * J') + (10 * L - 1) * W * J' := by
+        rw [Nat.add_mul]; congr 1; ac_rfl
+      have e2 : 20 * q * J' = 2 * (q * (10 * J')) := by
+        have : (20:Nat) = 2 * 10 := rfl
+        rw [this]; ac_rfl
+      rw [e1, e2] at this; exact this
+  generalize n * W * (10 * J') = A at *
+  generalize q * (10 * J') = QJ at *
+  generalize n' * W = T at *
+  generalize W * (10 * J') = WJ at *
+  generalize L * W * J' = B at *
+  generalize (10 * L - 1) * W * J' = E at *
+  generalize (10 * L - 1) * W = E0 at *
+  generalize L * W = LW at *
+  have hA : QJ ≤ A ∨ A < QJ := by omega
+  unfold absDiff
+  by_cases hne : n = L
+  · rcases hbd' with h1 | h2 | h3
+    · exact absurd hne h1
+    · rcases hA with hA | hA
+      · have := hm1 hA; omega
+      · have := hm2 hA; omega
+    · rcases hA with hA | hA
+      · have := hm1 hA; omega
+      · have := hm2 hA; omega
+  · have := a4 hne
+    rcases hA with hA | hA
+    · have := hm1 hA; omega
+    · have := hm2 hA; omega
+
+/-- **A proved rounding function**: decimal/rational → ordinal of the nearest double, ties to even. -/
+theorem roundOrd_isNearest (n d : Nat) (hd : 0 < d) : isNearestMag n d (roundOrd n d) = true := by
+  have h0 : lowerOK n d 0 = true := by simp [lowerOK]
+  have hs := bisect_spec n d 64 0 (infOrd + 1) (by omega) (by have := infOrd_lt; omega) (Nat.le_refl _) h0 (Or.inl rfl)
+  unfold roundOrd
+  generalize bisect n d 64 0 (infOrd + 1) = k at hs
+  obtain ⟨h1, h2, h3⟩ := hs
+  simp only [isNearestMag, Bool.and_eq_true, decide_eq_true_eq]
+  refine ⟨⟨⟨hd, h2⟩, h1⟩, ?_⟩
+  rcases h3 with h | h
+  · subst h; simp [upperOK]
+  · by_cases hk : k = infOrd
+    · subst hk; simp [upperOK]
+    · exact upperOK_of_lowerOK_succ_false h
+
+/-- …and it is complete: whatever the acceptance predicate accepts IS the value of the rounding function, so
+"the checker accepts (n/d, k)" and "k = roundOrd n d" are the same statement. -/
+theorem roundOrd_complete (n d k : Nat) (h : isNearestMag n d k = true) : k = roundOrd n d := by
+  have hd : 0 < d := by
+    simp only [isNearestMag, Bool.and_eq_true, decide_eq_true_eq] at h; exact h.1.1.1
+  exact isNearest_unique n d k (roundOrd n d) h (roundOrd_isNearest n d hd)
 
 /-- **toString(radix) parses back.**  The digit string `ip . fp` in radix `r` denotes
 `(value(ip)·r^|fp| + value(fp)) / r^|fp|` (positional notation, `natOfDigits_append`); if the checker accepts it
@@ -290,16 +403,146 @@ theorem parse_accepts_sound (neg : Bool) (n d : Nat) (f : F64)
     beq_iff_eq, Bool.not_eq_true'] at h
   exact ⟨h.1.1, h.1.2, isNearest_sound _ _ _ h.2⟩
 
+/-- **The layout function is value-faithful** (Number::toString steps 6–10 read back).  For digits `x :: xs`
+(all < 10, leading digit non-zero) and any point position `n`, reading the text produced by `ecmaFormat` with the
+driver's reader gives back the same digits — followed by `m` zeros in the pure-integer layout, which denote the same
+number — and the same point position `n`.  Covers all four layouts and the exponent suffix. -/
+theorem ecmaFormat_read (x : Nat) (xs : List Nat) (n : Int) (hx : x ≠ 0) (hd : ∀ d ∈ x :: xs, d < 10) :
+    ∃ m, readDigits (ecmaFormat (x :: xs) n) = some ((x :: xs) ++ List.replicate m 0, n) := by
+  unfold ecmaFormat
+  simp only []
+  split
+  · -- digits followed by n − k zeros
+    rename_i hc
+    refine ⟨(n - ((x :: xs).length : Nat)).toNat, ?_⟩
+    generalize hm : (n - ((x :: xs).length : Nat)).toNat = m
+    have hbody : digitsStr (x :: xs) ++ zeros m = digitsStr ((x :: xs) ++ List.replicate m 0) ++ [] := by
+      rw [zeros_eq, digitsStr_append, List.append_nil]
+    rw [hbody]
+    have hsc := scanDec_nodot ((x :: xs) ++ List.replicate m 0) [] 0 false
+      (all_lt_append hd (all_lt_replicate m)) (by simp) trivial scanFrac_nil scanExp_nil
+    have := readDigits_of hsc rfl ((x :: xs) ++ List.replicate m 0)
+      (by simp only [List.append_nil, List.cons_append]; exact dropZeros_cons _ hx) (by simp)
+    rw [this]
+    simp only [List.length_append, List.length_replicate, List.length_nil, List.length_cons] at *
+    congr 2
+    omega
+  · split
+    · -- d1…dn . dn+1…dk
+      rename_i hc1 hc2
+      refine ⟨0, ?_⟩
+      have hA : ∀ d ∈ (x :: xs).take n.toNat, d < 10 := fun d hm => hd d (List.mem_of_mem_take hm)
+      have hB : ∀ d ∈ (x :: xs).drop n.toNat, d < 10 := fun d hm => hd d (List.mem_of_mem_drop hm)
+      have hpos : 0 < n.toNat := by omega
+      have hAne : ((x :: xs).take n.toNat).isEmpty = false := by
+        cases hn : n.toNat with
+        | zero => omega
+        | succ i => simp
+      have hsc := scanDec_dot ((x :: xs).take n.toNat) ((x :: xs).drop n.toNat) [] 0 false hA hB hAne trivial scanExp_nil
+      rw [List.append_nil] at hsc
+      have := readDigits_of hsc rfl (x :: xs)
+        (by simp only [List.take_append_drop]; exact dropZeros_cons _ hx) (by simp)
+      rw [this]
+      simp only [List.replicate_zero, List.append_nil, List.length_drop, List.length_cons] at *
+      congr 2
+      omega
+    · split
+      · -- 0.000d1…dk
+        rename_i hc1 hc2 hc3
+        refine ⟨0, ?_⟩
+        generalize hz : (-n).toNat = z
+        have hbody : ('0' :: '.' :: (zeros z ++ digitsStr (x :: xs)))
+            = digitsStr [0] ++ '.' :: (digitsStr (List.replicate z 0 ++ (x :: xs)) ++ []) := by
+          rw [zeros_eq, digitsStr_append, List.append_nil]; rfl
+        rw [hbody]
+        have hsc := scanDec_dot [0] (List.replicate z 0 ++ (x :: xs)) [] 0 false (by simp)
+          (all_lt_append (all_lt_replicate z) hd) (by simp) trivial scanExp_nil
+        have := readDigits_of hsc rfl (x :: xs)
+          (by
+            show dropZeros ([0] ++ (List.replicate z 0 ++ (x :: xs))) = x :: xs
+            rw [show [0] ++ (List.replicate z 0 ++ (x :: xs)) = List.replicate (z + 1) 0 ++ (x :: xs) by
+              simp [List.replicate_succ]]
+            rw [dropZeros_replicate]; exact dropZeros_cons _ hx)
+          (by simp)
+        rw [this]
+        simp only [List.replicate_zero, List.append_nil, List.length_append, List.length_replicate,
+          List.length_cons] at *
+        congr 2
+        omega
+      · -- exponent notation
+        rename_i hc1 hc2 hc3
+        refine ⟨0, ?_⟩
+        unfold expFormat
+        cases xs with
+        | nil =>
+          show readDigits (digitsStr [x] ++ expSuffix (n - 1)) = _
+          have hsc := scanDec_nodot [x] (expSuffix (n - 1)) (n - 1) true hd (by simp)
+            (stops_expSuffix _) (scanFrac_expSuffix _) (scanExp_expSuffix _)
+          have := readDigits_of hsc rfl [x] (by simp only [List.append_nil]; exact dropZeros_cons _ hx) (by simp)
+          rw [this]
+          simp only [List.replicate_zero, List.append_nil, List.length_cons, List.length_nil]
+          congr 2
+          omega
+        | cons y ys =>
+          show readDigits (digitsStr [x] ++ '.' :: (digitsStr (y :: ys) ++ expSuffix (n - 1))) = _
+          have hsc := scanDec_dot [x] (y :: ys) (expSuffix (n - 1)) (n - 1) true
+            (fun d hm => hd d (by simp at hm; simp [hm]))
+            (fun d hm => hd d (List.mem_cons_of_mem _ hm)) (by simp) (stops_expSuffix _) (scanExp_expSuffix _)
+          have := readDigits_of hsc rfl (x :: y :: ys) (by exact dropZeros_cons _ hx) (by simp)
+          rw [this]
+          simp only [List.replicate_zero, List.append_nil, List.length_cons]
+          congr 2
+          omega
+
+/-- **The toFixed layout is value-faithful**: the text `fixedFormat N fd` scans as a complete decimal literal without
+exponent, with exactly `fd` fraction digits, whose digits (integer part followed by fraction part) denote `N` — i.e.
+the text denotes `N / 10^fd`, the number the checker `isFixed` certifies. -/
+theorem fixedFormat_read (N fd : Nat) :
+    ∃ l, scanDec (fixedFormat N fd) = some l ∧ l.rest = [] ∧ l.hasExp = false ∧ l.frac.length = fd ∧
+      natOfDigits 10 (l.int ++ l.frac) = N := by
+  unfold fixedFormat
+  simp only []
+  generalize hP : List.replicate (fd + 1 - (natDigits N).length) 0 ++ natDigits N = P
+  have hPlt : ∀ d ∈ P, d < 10 := by
+    rw [← hP]; exact all_lt_append (all_lt_replicate _) (natDigits_lt N)
+  have hPlen : fd + 1 ≤ P.length := by
+    rw [← hP, List.length_append, List.length_replicate]; omega
+  have hPval : natOfDigits 10 P = N := by
+    rw [← hP, natOfDigits_append, natOfDigits_replicate_zero, natDigits_value]; simp
+  have hA : ∀ d ∈ P.take (P.length - fd), d < 10 := fun d hm => hPlt d (List.mem_of_mem_take hm)
+  have hB : ∀ d ∈ P.drop (P.length - fd), d < 10 := fun d hm => hPlt d (List.mem_of_mem_drop hm)
+  have hAne : (P.take (P.length - fd)).isEmpty = false := by
+    cases hP' : P with
+    | nil => rw [hP'] at hPlen; simp at hPlen
+    | cons x xs =>
+      have : 0 < (x :: xs).length - fd := by rw [← hP']; omega
+      cases hn : (x :: xs).length - fd with
+      | zero => omega
+      | succ i => simp
+  by_cases h0 : fd = 0
+  · subst h0
+    simp only [beq_self_eq_true, if_true]
+    have hsc := scanDec_nodot (P.take (P.length - 0)) [] 0 false hA hAne trivial scanFrac_nil scanExp_nil
+    rw [List.append_nil] at hsc
+    refine ⟨_, hsc, rfl, rfl, rfl, ?_⟩
+    simp [hPval]
+  · have hb : (fd == 0) = false := by simp [h0]
+    simp only [hb, Bool.false_eq_true, if_false]
+    have hsc := scanDec_dot (P.take (P.length - fd)) (P.drop (P.length - fd)) [] 0 false hA hB hAne trivial scanExp_nil
+    rw [List.append_nil] at hsc
+    refine ⟨_, hsc, rfl, rfl, ?_, ?_⟩
+    · simp only [List.length_drop]; omega
+    · simp only [List.take_append_drop]; exact hPval
+
 /-- The grid of doubles is strictly increasing in the ordered bit pattern (needed by all of the above). -/
 theorem value_strictMono {j k : Nat} (h : j < k) : magOrd j < magOrd k := magOrd_strictMono h
 
 /-- **Property-level claim (partial).**  Every conversion output that the driver's checkers accept is certified
 against the specification by the theorems above: nearest/ties-to-even for text → number, round-trip + minimal
-digit count for String(x), correct rounding with ties up for toFixed.
+digit count for String(x), correct rounding with ties up for toFixed (and `exp_sound`, `closest_sound`, `radix_sound`, `roundOrd_*` alongside).
 `_partial` because (1) universality over all 2^64 inputs × digit counts × radices × strings is SAMPLED by the
-correspondence run, not proved — there is no model of goja's dtoa/Grisu digit generators; (2) `exp_sound_partial`
-and `closest_sound_partial` cover same-exponent competitors only; (3) the text layer (grammar, layout functions)
-is executable specification, not theorem. -/
+correspondence run, not proved — there is no model of goja's dtoa/Grisu digit generators; (2) of the text layer only the Number::toString and toFixed layouts are covered by theorems (`ecmaFormat_read`,
+`fixedFormat_read`); the input grammars and the toPrecision layout are executable specification. -/
 theorem dtoa_certified_partial :
     (∀ n d k, isNearestMag n d k = true → ∀ j, j ≤ infOrd →
         absDiff (n * scale) (magOrd k * d) ≤ absDiff (n * scale) (magOrd j * d)) ∧
